@@ -51,7 +51,11 @@ def fill(msg, rnd, full):
         elif vr == 'AE':
             el.value = 'AE' + 'X' * rnd.randint(0, 14)
         elif vr == 'AT':
-            el.value = 0x00100010
+            # Attribute Identifier List / Offending Element: value multiplicity 1-n
+            k = rnd.choice([1, 1, 2, 3, 5])
+            tags = [rnd.choice([0x00100010, 0x00100020, 0x0020000D, 0x00080018, 0x7FE00010])
+                    for _ in range(k)]
+            el.value = tags[0] if k == 1 else tags
         elif vr == 'LO':
             el.value = 'c' * rnd.randint(1, 20)
     if rnd.random() < 0.2:
@@ -120,6 +124,7 @@ def run(seed, local_max, peer_max, specs=None, timeout=3600, delivery='random', 
                                     files=('dsutils.py',))
             pre.install()
         neg = peer_max if (peer_max and (not local_max or peer_max < local_max)) else local_max
+        out['neg'] = neg
         all_specs = []
         for a_i in range(nassoc):
             addr = (ADDR[0], ADDR[1] + a_i)
